@@ -16,6 +16,64 @@ def write_if_changed(path, content):
         return True
     return False
 
+COQ = os.path.join(VERIF, "coq")
+GEN_CHECK_TIMEOUT = int(os.environ.get("VERIF_GEN_CHECK_TIMEOUT", "180"))
+
+def type_checks(text, name):
+    """does this generated file compile (against the compiled theories)?  True / False / None (cannot tell:
+       the theories it imports are not built or are stale — then nothing is concluded from the failure)"""
+    import subprocess, tempfile, shutil
+    d = tempfile.mkdtemp(prefix="gencheck-", dir=os.environ.get("VERIF_TMP", tempfile.gettempdir()))
+    try:
+        path = os.path.join(d, name)
+        with open(path, "w") as f:
+            f.write(text)
+        try:
+            p = subprocess.run(["coqc", "-Q", os.path.join(COQ, "theories"), "CB", "-Q", os.path.join(COQ, "gen"), "CBGen",
+                                "-Q", d, "CBGenCheck", path], stdout=subprocess.PIPE, stderr=subprocess.STDOUT, text=True,
+                               timeout=GEN_CHECK_TIMEOUT)
+        except subprocess.TimeoutExpired:
+            return False
+        except OSError:
+            return None
+        if p.returncode == 0:
+            return True
+        out = p.stdout
+        if "Cannot find" in out or "inconsistent assumptions" in out or "Compiled library" in out or "bad version" in out:
+            return None
+        return False
+    finally:
+        shutil.rmtree(d, ignore_errors=True)
+
+def checked_emit(efns, enums, conf, group, lenums, path):
+    """emit the group's file; if it does not type-check, find the offending functions (each alone
+       beside fallbacks), re-emit them as fallbacks, and as a last resort fall the whole group back"""
+    name = os.path.basename(path)
+    def emit(fns):
+        return effects.emit(fns, enums, conf, group, lenums)
+    text = emit(efns)
+    if os.path.exists(path) and open(path).read() == text and os.path.exists(path[:-2] + ".vo") \
+       and os.path.getmtime(path[:-2] + ".vo") >= os.path.getmtime(path):
+        return efns, []                      # unchanged since it was last compiled
+    ok = type_checks(text, name)
+    bad = []
+    if ok is False:
+        mine = [i for i, (spec, segs) in enumerate(efns) if spec.get("group", "containers") == group and segs is not None]
+        for i in mine:
+            alone = [(spec, segs if (k == i or spec.get("group", "containers") != group) else None) for k, (spec, segs) in enumerate(efns)]
+            if type_checks(emit(alone), name) is False:
+                bad.append(i)
+        if not bad:
+            bad = mine                        # no single culprit: the combination fails
+        efns = [(spec, None if k in bad else segs) for k, (spec, segs) in enumerate(efns)]
+        text = emit(efns)
+        if type_checks(text, name) is False:  # still broken: every function of the group falls back
+            bad = mine
+            efns = [(spec, None if k in bad else segs) for k, (spec, segs) in enumerate(efns)]
+            text = emit(efns)
+    write_if_changed(path, text)
+    return efns, [efns[i][0]["name"] for i in bad]
+
 def regenerate(cfg, sizes):
     """cfg: vlib.build.configure() result; sizes: dict from `hx config`. Returns report dict."""
     incs, defs = cfg["incs"], cfg["defs"]
@@ -44,19 +102,15 @@ def regenerate(cfg, sizes):
     report["unsupported"] += ["translator_unsupported:" + n for n in notes]
     write_if_changed(os.path.join(GEN, "Gen_leaf.v"), leaf.emit(fns))
     report["leaf_functions"] = sum(1 for _, t in fns if t is not None)
-    # container plans (decision and arithmetic core of the struct-manipulating functions)
+    # plans (translator/effects.py): container functions, decoder glue, serializer, cbor_decref, cbor_copy.
+    # Every generated file is type-checked here, once, before it is installed: a translator bug can
+    # cost a function its translator tie (it falls back), never the build of the property files.
     efns, notes, enums = effects.translate_all(cfg, sizes)
     report["unsupported"] += ["translator_unsupported:" + n for n in notes]
-    write_if_changed(os.path.join(GEN, "Gen_effects.v"), effects.emit(efns, enums, cfg.get("conf"), "containers"))
-    # ... and of the decoder glue (builder_callbacks.c, cbor_load)
-    write_if_changed(os.path.join(GEN, "Gen_effects_load.v"),
-                     effects.emit(efns, enums, cfg.get("conf"), "load", effects.load_enums(cfg)))
-    # ... and of the serializer (serialization.c)
-    write_if_changed(os.path.join(GEN, "Gen_effects_ser.v"),
-                     effects.emit(efns, enums, cfg.get("conf"), "ser", effects.load_enums(cfg)))
-    # ... and of the release path of the reference counting (cbor_decref)
-    write_if_changed(os.path.join(GEN, "Gen_effects_ref.v"),
-                     effects.emit(efns, enums, cfg.get("conf"), "ref", effects.load_enums(cfg)))
+    lenums = effects.load_enums(cfg)
+    for group, fname in effects.GROUPS.items():
+        efns, bad = checked_emit(efns, enums, cfg.get("conf"), group, lenums, os.path.join(GEN, fname))
+        report["unsupported"] += ["translator_unsupported:%s: generated text does not type-check" % n for n in bad]
     report["effect_plans"] = sum(1 for _, t in efns if t is not None)
     # inventories
     inv, notes = inventory.scan(cfg)
